@@ -102,6 +102,32 @@ func (v *fnVC) call(in ssa.CallInstruction, st *State) {
 				}
 				return
 			}
+			// a function-typed parameter of the enclosing function with an assumed (fnparam) contract
+			rv := v.root()
+			for _, p := range rv.fn.Params {
+				psig, ok := p.Type().Underlying().(*types.Signature)
+				if !ok || !types.Identical(psig, c.Signature()) {
+					continue
+				}
+				if pct := v.w.specs.Contracts["fnparam:"+rv.fn.RelString(nil)+"."+p.Name()]; pct != nil {
+					v.safetyOb("unknown-func-value", in.Pos(), tEq(fv, rv.vals[p]))
+					ci.key, ci.ct, ci.display = pct.Key, pct, "parameter "+p.Name()
+					ci.names = nil
+					for k := 0; k < psig.Params().Len(); k++ {
+						ci.names = append(ci.names, paramName(psig.Params().At(k), k))
+					}
+					for _, a := range c.Args {
+						args = append(args, v.val(a))
+					}
+					if len(pct.ParamNm) > 0 {
+						ci.names = pct.ParamNm
+					}
+					if res := v.applyCall(in, ci, args, st); res != nil {
+						setResult(res)
+					}
+					return
+				}
+			}
 			ci.display = "func value " + c.Value.Name()
 			// a parameter of function type may carry a contract:  `iface param:<func>.<name>`
 			ci.key = "fnparam:" + v.fn.RelString(nil) + "." + c.Value.Name()
